@@ -193,6 +193,20 @@ CLAIMED = {
         "algorithms the property names and is left out; ties in magnitude are resolved arbitrarily.",
    technique="proxy execution of the real eig rules in an index-function domain with ghost spectrum enumeration and argsort/eig/eigh dependency contracts; z3/cvc5",
    engine="IDX"),
+ "C16": dict(
+   category="proof",
+   text="pinv: every rule (Auto, LSTSQ, CG, Identity, ScalarMul, Diagonal, Permutation) runs as real code over abstract operands of square, tall and wide shape, "
+        "real and complex: M(r) = M(A)^+ and the shape is swapped; the CG rule's contract is M(r) = M(A)^+ + c A^H with c exactly get_precision(dtype)*max(shape) "
+        "(its explicit regulariser) and CG-from-zero on the Gram matrix as psolve. svd: the DenseSVD rule runs in the index domain over an abstract m x n operator "
+        "(tall, wide, square): the dense routine is applied to the matrix of A, r = min(m,n) triplets, triplet i is (u,s,v)_sigma(i) for one sigma, sigma injective "
+        "into [0,r) (hence U Sigma V^H = A, orthonormal columns, Sigma >= 0); Identity rule entrywise.",
+   design_ref="4.16",
+   note="svd(Diagonal) and the Lanczos svd rule (orthonormality, best rank-k approximation) are covered only by bounded stand-ins on the real code (sizes <= 12, all k), "
+        "labelled bounded and not counted as proved; Eckart-Young is not formalised; psolve(A^H A) A^H = A^+ and pinv of an invertible matrix are ASSUMED lemmas with "
+        "citations; the CG regulariser is part of the contract (the property holds up to c = eps*max(shape)); the LOBPCG svd rule is outside the statement's algorithms.",
+   technique="contract-stubbed proxy execution of the real rules (ALG for pinv, index domain with ghost triplet enumeration for svd); bounded execution of the real code "
+             "as stand-in for the Lanczos and Diagonal svd rules",
+   engine="ALG+IDX"),
 }
 
 NOT_YET = "check not built yet in this session (framework under construction; see DESIGN.md section 10 for the order of work)"
